@@ -9,7 +9,11 @@ from sim.driver import Check, KF, digest
 from sim import models
 from sim.shrink import drop_chunks
 
-OBS_OPS = ('compile', 'run', 'probe')
+OBS_OPS = ('compile', 'run', 'probe', 'grid')
+
+
+def clear_pref_default(stratum):
+    return {'S-clean': 1.0, 'S-fault': 1.0, 'S-noclear': 0.0}.get(stratum, 0.5)
 
 
 def _kwsig(op):
@@ -94,6 +98,17 @@ class C13(Check):
             val = 0.0 if (var != 'tau' and rng.random() < 0.3) else rng.randint(1, 40) / 16    # exactly 0 is a legal override
             ops.append({'wf': wid, 'op': 'update_var', 'obj': M, 'node_vars': {f'{node}/{opn}/{var}': val}})
         n_obs = rng.randint(1, 3)
+        if stratum not in ('S-fortran',) and not spec.get('circuits') and net.inst and rng.random() < 0.15:
+            # a parameter sweep over a copy of the circuit (grid_search deep-copies the template it is given)
+            (gnode, gop), ginst = rng.choice(list(net.inst.items()))
+            gvar = rng.choice(models.LIB[ginst['lib']]['const'] or models.LIB[ginst['lib']]['state'])
+            if gvar not in ('wmid',):
+                dtg = rng.choice([1e-3, 0.01])
+                ops.append({'wf': wid, 'op': 'grid', 'obj': M, 'node': gnode, 'opn': gop, 'var': gvar,
+                            'vals': [rng.randint(1, 40) / 16, rng.randint(1, 40) / 16], 'dt': dtg, 'T': rng.randint(3, 8) * dtg,
+                            'out': f"{gnode}/{gop}/{models.LIB[ginst['lib']]['out']}",
+                            'kw': {'vectorize': rng.random() < 0.6, 'float_precision': 'float64',
+                                   'clear': rng.random() < clear_pref_default(stratum)}})
         consumed = False
         clear_pref = {'S-clean': 1.0, 'S-fault': 1.0, 'S-noclear': 0.0}.get(stratum, 0.5)
         for j in range(n_obs):
